@@ -4,8 +4,9 @@
 set -euo pipefail
 OUT=${1:-/verif/build/libflux}
 mkdir -p "$OUT"
-MC=$(cd /repo && GOFLAGS=-mod=mod GOPROXY=off go env GOMODCACHE)
-FLUXV=$(cd /repo && awk '$1=="github.com/influxdata/flux"{print $2}' go.mod | head -1)
+R="${VERIF_REPO:-/repo}"
+MC=$(cd "$R" && GOFLAGS=-mod=mod GOPROXY=off go env GOMODCACHE)
+FLUXV=$(cd "$R" && awk '$1=="github.com/influxdata/flux"{print $2}' go.mod | head -1)
 INC="$MC/github.com/influxdata/flux@$FLUXV/libflux/include"
 H="$INC/influxdata/flux.h"
 {
